@@ -34,20 +34,45 @@ def kinds_of(m: dict) -> list[str]:
 
 
 # ----------------------------------------------------------------------------- pools (position-indexed, unique)
-# Every default text is a literal whose repr() is the text itself (checked by `selfcheck_pools`), so that CPython's
-# evaluated default identifies the source expression: repr(inspect default) == text of the default in the source.
+# Default texts are literals. The default *expression* Griffe reports is judged by evaluation: eval(str(default)) must succeed
+# and denote CPython's default value (same type, same repr — which is nan/inf/-0.0 safe). The pool therefore also holds
+# literals whose source text differs from repr(value): overflowing floats (inf has no literal), hex / underscore / exponent
+# notations, implicit string and bytes concatenation.
 def default_text(i: int) -> str:
+    d = i % 10
     forms = (
         f"{10 + i}",
         f"'s{i}'",
-        f"-{i + 1}",
+        "1e999",
         f"({i}, 2)",
+        f"0x1{d}",
+        "-1e999",
+        f"'a{i}' \"b\"",
+        "1e999j",
+        f"-{i + 1}",
         f"{i}.5",
         f"[{i}]",
         f"{{'k': {i}}}",
         f"b'x{i}'",
+        f"1_00{d}",
+        f"{d + 1}e3",
+        f"b'x' b'{d}'",
+        "-1e999j",
     )
     return forms[i % len(forms)]
+
+
+def denote(value) -> str:
+    """Identity of a literal's value: type and repr."""
+    return f"{type(value).__name__}:{value!r}"
+
+
+def denote_text(text: str) -> tuple[bool, str]:
+    """(evaluable?, denotation or error) of an expression text made of literals."""
+    try:
+        return True, denote(eval(text, {}))  # noqa: S307
+    except Exception as exc:  # noqa: BLE001
+        return False, repr(exc)
 
 
 # Annotation texts are in the form ast.unparse produces (CPython's own stringification under PEP 563).
@@ -71,10 +96,14 @@ def selfcheck_pools(n: int = 26) -> None:
 
     for i in range(n):
         t = default_text(i)
-        assert repr(eval(t)) == t, t  # noqa: S307
+        assert denote_text(t)[0], t
         a = annotation_text(i)
         assert ast.unparse(ast.parse(a, mode="eval").body) == a, a
     assert ast.unparse(ast.parse(RETURN_TEXT, mode="eval").body) == RETURN_TEXT
+    # within any window of 14 consecutive positions the default values are pairwise different (mis-alignment stays visible)
+    for lo in range(n):
+        vals = [denote_text(default_text(i))[1] for i in range(lo, lo + 14)]
+        assert len(set(vals)) == len(vals), vals
 
 
 # ----------------------------------------------------------------------------- enumeration
@@ -211,7 +240,7 @@ _EMPTY = inspect.Parameter.empty
 
 
 def py_view(sig: inspect.Signature, annotations: bool = True) -> dict:
-    """CPython's view as plain data. Annotations are strings (PEP 563); defaults are identified by repr()."""
+    """CPython's view as plain data. Annotations are strings (PEP 563); defaults are identified by type and repr()."""
     params = []
     for p in sig.parameters.values():
         params.append(
@@ -219,7 +248,7 @@ def py_view(sig: inspect.Signature, annotations: bool = True) -> dict:
                 "name": p.name,
                 "kind": PY_KIND[p.kind],
                 "has_default": p.default is not _EMPTY,
-                "default": None if p.default is _EMPTY else repr(p.default),
+                "default": None if p.default is _EMPTY else denote(p.default),
                 "annotation": None if (p.annotation is _EMPTY or not annotations) else p.annotation,
             }
         )
@@ -268,10 +297,25 @@ def compare(where: str, what: str, g: dict, py: dict, annotations: bool = True) 
                         f"{what}: parameter {n}: CPython default {pp['default']}, Griffe default {gp['default']}",
                     )
                 )
-            elif gp["has_default"] and gp["default"] != pp["default"]:
-                fails.append(
-                    Fail("default-expr", f"{where}:{pp['kind']}", f"{what}: parameter {n}: CPython default {pp['default']}, Griffe default {gp['default']}")
-                )
+            elif gp["has_default"]:
+                # the reported default expression must evaluate, and to the value CPython holds
+                ok, den = denote_text(gp["default"])
+                if not ok:
+                    fails.append(
+                        Fail(
+                            "default-expr",
+                            f"{where}:{pp['kind']}:not-evaluable",
+                            f"{what}: parameter {n}: CPython default {pp['default']}, Griffe reports the expression {gp['default']!r} which does not evaluate: {den}",
+                        )
+                    )
+                elif den != pp["default"]:
+                    fails.append(
+                        Fail(
+                            "default-expr",
+                            f"{where}:{pp['kind']}",
+                            f"{what}: parameter {n}: CPython default {pp['default']}, Griffe reports the expression {gp['default']!r} = {den}",
+                        )
+                    )
             if gp.get("required") is not None and gp["required"] != (not pp["has_default"]):
                 fails.append(Fail("required", f"{where}:{pp['kind']}", f"{what}: parameter {n}: has default {pp['has_default']} in CPython, Parameter.required={gp['required']}"))
         if annotations and gp["annotation"] != pp["annotation"]:
